@@ -1526,3 +1526,6 @@ func (p *Prover) proveEdgeValue(goalOf func(ssa.Value) Lin, e ssa.Value, pred, s
 	}
 	return true
 }
+
+// ResetMemos drops the per-program memo tables of this package.
+func ResetMemos() { mayWriteMemo = map[*ssa.Function]map[string]bool{} }
